@@ -74,8 +74,8 @@ def run_variant(v: dict) -> dict:
     tmp = tempfile.mkdtemp(prefix="sa_selftest_")
     try:
         make_tree(os.path.join(tmp, "repo"), {v["file"]: new})
-        env = dict(os.environ, VERIF_REPO=os.path.join(tmp, "repo"), VERIF_EVIDENCE_DIR=os.path.join(tmp, "ev"))
-        p = subprocess.run([sys.executable, "-m", "sa.check", v["property"]], cwd=VERIF, env=env, capture_output=True, text=True, timeout=600)
+        env = dict(os.environ, VERIF_REPO=os.path.join(tmp, "repo"), VERIF_EVIDENCE_DIR=os.path.join(tmp, "ev"), VERIF_TIER="quick")
+        p = subprocess.run([sys.executable, "-m", "sa.check", v["property"], "--tier", "quick"], cwd=VERIF, env=env, capture_output=True, text=True, timeout=600)
         lines = p.stdout.splitlines()
         hits = [l for l in lines if l.startswith("  " + v["rule"] + " ")]
         others = sorted({l.split()[0] for l in lines if l.startswith("  R") and not l.startswith("  " + v["rule"] + " ")})
@@ -88,6 +88,69 @@ def run_variant(v: dict) -> dict:
         return {**res, "status": status, "exit": p.returncode, "hits": len(hits), "other_rules_fired": others, "first": (hits[0][:200] if hits else (lines[-1][:200] if lines else ""))}
     finally:
         shutil.rmtree(tmp, ignore_errors=True)
+
+
+def seed_edits(patch_path: str) -> dict[str, str]:
+    """path -> new content, from applying a kept seeded patch to copies of the touched files."""
+    import re
+    txt = open(patch_path).read()
+    paths = sorted(set(re.findall(r"^\+\+\+ b/(\S+)", txt, re.M)))
+    tmp = tempfile.mkdtemp(prefix="seedpatch_")
+    try:
+        for q in paths:
+            os.makedirs(os.path.dirname(os.path.join(tmp, q)), exist_ok=True)
+            if os.path.exists(os.path.join(REPO, q)):
+                shutil.copy(os.path.join(REPO, q), os.path.join(tmp, q))
+        r = subprocess.run(["patch", "-p1", "-s", "-i", patch_path], cwd=tmp, capture_output=True, text=True)
+        if r.returncode != 0:
+            raise RuntimeError(f"patch does not apply to the current tree: {r.stdout} {r.stderr}"[:300])
+        return {q: open(os.path.join(tmp, q)).read() for q in paths}
+    finally:
+        shutil.rmtree(tmp, ignore_errors=True)
+
+
+def run_seed_for(pid: str, sid: str) -> dict:
+    sd = os.path.join(VERIF, "seeded", sid)
+    res = {"name": "seeded/" + sid, "property": pid, "rule": "*"}
+    try:
+        edits = seed_edits(os.path.join(sd, "patch.diff"))
+    except (RuntimeError, OSError) as e:
+        return {**res, "status": "skipped", "why": str(e)}
+    tmp = tempfile.mkdtemp(prefix="sa_selftest_")
+    try:
+        make_tree(os.path.join(tmp, "repo"), edits)
+        env = dict(os.environ, VERIF_REPO=os.path.join(tmp, "repo"), VERIF_EVIDENCE_DIR=os.path.join(tmp, "ev"), VERIF_TIER="quick")
+        p = subprocess.run([sys.executable, "-m", "sa.check", pid, "--tier", "quick"], cwd=VERIF, env=env, capture_output=True, text=True, timeout=900)
+        hits = sorted({l.split()[0] for l in p.stdout.splitlines() if l.startswith("  R")})
+        status = "fired" if p.returncode == 1 else ("analysis-error" if p.returncode == 2 else "MISSED")
+        return {**res, "status": status, "exit": p.returncode, "rules_fired": hits}
+    finally:
+        shutil.rmtree(tmp, ignore_errors=True)
+
+
+def for_property(pid: str) -> dict:
+    """Seeded variants and kept seeded changes of one property, run against scratch copies (recorded, not judged)."""
+    vs = [v for v in load_variants() if v["property"] == pid]
+    seeds = []
+    sroot = os.path.join(VERIF, "seeded")
+    for d in sorted(os.listdir(sroot)) if os.path.isdir(sroot) else []:
+        mp = os.path.join(sroot, d, "meta.json")
+        if os.path.exists(mp):
+            try:
+                if json.load(open(mp)).get("property") == pid:
+                    seeds.append(d)
+            except ValueError:
+                pass
+    with ThreadPoolExecutor(max_workers=min(16, os.cpu_count() or 4)) as ex:
+        futs = [ex.submit(run_variant, v) for v in vs] + [ex.submit(run_seed_for, pid, s_) for s_ in seeds]
+        results = [f.result() for f in futs]
+    return {
+        "seeded_variants_run": len(results),
+        "seeded_variants_fired": sum(1 for r in results if r["status"] == "fired"),
+        "seeded_variants_skipped": [r["name"] for r in results if r["status"] == "skipped"],
+        "seeded_variants_not_fired": [f"{r['name']} ({r['status']})" for r in results if r["status"] not in ("fired", "skipped")],
+        "seeded_variant_results": [{k: r.get(k) for k in ("name", "rule", "status", "hits", "rules_fired", "other_rules_fired", "why")} for r in results],
+    }
 
 
 def main(argv=None) -> int:
